@@ -38,10 +38,13 @@ PROFILES = {
     'c09': {'n_nodes': [2, 3, 3, 4], 'routing_kinds': ['tm', 'nr', 'nr', 'nr', 'pb', 'fpb', 'fpb'], 'p_ccm': 0.5,
             'node_routers': ['leave', 'direct', 'prob', 'jsq', 'jsq', 'lb', 'lb', 'cycle']},
     'linger': {'disciplines': ['LINGER:1.0', 'LINGER:0.4', 'SECOND', 'FIFO'], 'p_ps': 0.0, 'n_classes': [2, 2, 3], 'p_lattice': 0.3},
-    'c10': {'p_batch': 0.6, 'p_share_objects': 0.5, 'p_lattice': 0.55, 'run_methods': ['time', 'time', 'customers']},
+    'c10': {'p_split': 0.3, 'p_batch': 0.6, 'p_share_objects': 0.5, 'p_lattice': 0.55, 'run_methods': ['time', 'time', 'customers']},
     'c09jsq': {'n_nodes': [2, 3, 3, 4], 'n_classes': [2, 3], 'routing_kinds': ['nr', 'nr', 'fpb'], 'node_routers': ['jsq', 'jsq', 'lb', 'jsq', 'prob'],
                'p_prio': 1.0, 'force_distinct_prio': True, 'p_prio_preempt': 1.0, 'prio_preempt_opts': ['reroute', 'reroute', 'resume', False],
                'p_kinds': (0.8, 0.0, 0.2, 0.0), 'sched_preempt': [False, 'reroute'], 'arr_scale': 0.6, 'p_ps': 0.25, 'p_qcap': 0.1},
+    'c09rr': {'n_nodes': [2, 3, 3], 'n_classes': [2, 3], 'routing_kinds': ['tm', 'tm', 'nr'], 'p_prio': 1.0, 'force_distinct_prio': True, 'p_prio_preempt': 1.0,
+              'prio_preempt_opts': ['reroute', 'reroute', 'resume'], 'p_cct': 1.0, 'p_ccm': 0.3, 'p_kinds': (0.85, 0.0, 0.15, 0.0), 'sched_preempt': [False, 'reroute'],
+              'arr_scale': 0.55, 'p_ps': 0.0, 'p_qcap': 0.1},
     'c11': {'n_classes': [2, 3, 3], 'p_prio': 1.0, 'force_distinct_prio': True, 'p_prio_preempt': 1.0,
             'prio_preempt_opts': ['resume', 'restart', 'resample', 'reroute', 'resume', 'restart', 'resample'],
             'p_qcap': 0.0, 'p_qcap_sched': 0.0, 'p_syscap': 0.0, 'p_kinds': (1.0, 0.0, 0.0, 0.0), 'zero': False, 'p_ps': 0.0,
@@ -93,7 +96,7 @@ PLANS = {
     'C06': ([('c06', 7), ('generic', 3)], scope_c06, ['C06.arrivals_when_full']),
     'C07': ([('c07', 6), ('c07inf', 3), ('ring', 2), ('generic', 2)], scope_c07, ['C07.blocks']),
     'C08': ([('c08', 5), ('c08sched', 2), ('generic', 3), ('c11', 1)], scope_all, ['C08.service_starts_with_choice', 'C08.slot_starts']),
-    'C09': ([('c09', 5), ('c09jsq', 3), ('generic', 3)], scope_all, ['C09.routing_decisions']),
+    'C09': ([('c09', 5), ('c09jsq', 3), ('c09rr', 2), ('generic', 3)], scope_all, ['C09.routing_decisions']),
     'C10': ([('c10', 5), ('generic', 4), ('lattice', 1), ('exactlattice', 1), ('linger', 2)], scope_all, ['C10.services']),
     'C11': ([('c11', 9), ('generic', 1)], scope_c11, ['C11.preemptions']),
     'C12': ([('c12', 7), ('slotall', 1), ('generic', 2)], scope_all, ['C12.shift_changes', 'C12.slots']),
